@@ -22,6 +22,10 @@ inductive Json where
   | str (s : String)
   | arr (xs : List Json)
   | obj (kvs : List (String × Json))
+  /-- a token that is syntactically fine to *skip* (`IgnoredAny`) but that no typed or buffered
+  position accepts: a string with an unpaired `\uD8xx` surrogate escape.  Only the text parser
+  (Model/JsonText.lean) produces it. -/
+  | junk
 deriving Repr, Inhabited
 
 /-! ### Printer (`serde_json::to_string`) -/
@@ -48,18 +52,19 @@ def escapeChars : List Char → List Char
 def renderStr (s : String) : List Char :=
   '"' :: escapeChars s.toList ++ ['"']
 
-/-- decimal digits of a natural number, most significant first (`itoa`). -/
-def natDigits (n : Nat) : List Char := (Nat.toDigits 10 n)
+def digitChar (d : Nat) : Char := Char.ofNat (48 + d)
+
+/-- decimal digits of a natural number, most significant first, no leading zero (`itoa`). -/
+def natDigits (n : Nat) : List Char :=
+  if n < 10 then [digitChar n] else natDigits (n / 10) ++ [digitChar (n % 10)]
+termination_by n
+decreasing_by omega
 
 def renderInt : Int → List Char
   | .ofNat n => natDigits n
   | .negSucc n => '-' :: natDigits (n + 1)
 
-def sepBy (sep : Char) : List (List Char) → List Char
-  | [] => []
-  | [x] => x
-  | x :: y :: xs => x ++ sep :: sepBy sep (y :: xs)
-
+/-! Compact form: `[` first element, then `,` element …, `]`; objects alike with `"key":value`. -/
 mutual
 def render : Json → List Char
   | .null => ['n', 'u', 'l', 'l']
@@ -68,14 +73,18 @@ def render : Json → List Char
   | .num i => renderInt i
   | .flt r => r.toList
   | .str s => renderStr s
-  | .arr xs => '[' :: sepBy ',' (renderList xs) ++ [']']
-  | .obj kvs => '{' :: sepBy ',' (renderFields kvs) ++ ['}']
-def renderList : List Json → List (List Char)
-  | [] => []
-  | x :: xs => render x :: renderList xs
-def renderFields : List (String × Json) → List (List Char)
-  | [] => []
-  | (k, v) :: r => (renderStr k ++ ':' :: render v) :: renderFields r
+  | .arr [] => ['[', ']']
+  | .arr (x :: xs) => '[' :: render x ++ renderElems xs
+  | .obj [] => ['{', '}']
+  | .obj ((k, v) :: kvs) => '{' :: renderStr k ++ ':' :: render v ++ renderMembers kvs
+  | .junk => []
+/-- the elements after the first one, each preceded by a comma, then the closing bracket -/
+def renderElems : List Json → List Char
+  | [] => [']']
+  | x :: xs => ',' :: render x ++ renderElems xs
+def renderMembers : List (String × Json) → List Char
+  | [] => ['}']
+  | (k, v) :: kvs => ',' :: renderStr k ++ ':' :: render v ++ renderMembers kvs
 end
 
 def print (j : Json) : String := String.ofList (render j)
@@ -93,6 +102,21 @@ def depthList : List Json → Nat
 def depthFields : List (String × Json) → Nat
   | [] => 0
   | (_, v) :: r => max (depth v) (depthFields r)
+end
+
+/-! does the value contain a token that may only be skipped? -/
+mutual
+def hasJunk : Json → Bool
+  | .junk => true
+  | .arr xs => hasJunkList xs
+  | .obj kvs => hasJunkFields kvs
+  | _ => false
+def hasJunkList : List Json → Bool
+  | [] => false
+  | x :: xs => hasJunk x || hasJunkList xs
+def hasJunkFields : List (String × Json) → Bool
+  | [] => false
+  | (_, v) :: r => hasJunk v || hasJunkFields r
 end
 
 /-! ### Building blocks of `#[derive(Deserialize)]` -/
